@@ -36,7 +36,7 @@ PLAN = {
         note="alloc_frame is proved per storage size N (configurations enumerated), not for symbolic N",
     ),
     "C04": dict(
-        verus=["created_frame"], kani=["frame_build", "slots"], level="proof",
+        verus=["created_frame"], kani=["frame_build", "frame_header", "slots"], level="proof",
         claim="CreatedFrame::push_pdu / push_pdu_slice_rest / can_push_pdu_payload / is_empty and generate::write_packed extracted WHOLE and verbatim (Verus, any frame "
               "size <= 2047, any number of datagrams, any payload): Ok iff old used + max(len, override) + 12 <= capacity, the used length advances by exactly that, a refused push "
               "returns TooLong and changes nothing, fill-the-rest is cut to min(len, free-12) and says so and never errs, bytes beyond the new datagram are untouched, the "
@@ -48,7 +48,7 @@ PLAN = {
              "pointer code is in the Kani groups); the BYTE CONTENT harnesses are bounded in frame size and datagram count (stated under bounded_not_counted_as_proved)",
     ),
     "C05": dict(
-        verus=[], kani=["rx", "storage", "slots"], level="proof",
+        verus=[], kani=["rx", "storage", "slots", "frame_header"], level="proof",
         claim="receive_frame on arbitrary bytes: totality, Ignored/Err leave buffers and markers untouched, strangers ignored, unmatched index never accepted "
               "(Kani bounded stand-in: N=2, DATA=44, length<=50, everything else symbolic); claim_receiving / lookup / marker functions complete",
         note="the length and slot-count bounds are stated in the evidence under bounded_not_counted_as_proved",
